@@ -398,9 +398,11 @@ fn check_negative_in_context(v: f64, g: G, c: usize) -> Result<(), String> {
 
 /// programs holding one literal spelling in a few positions
 fn literal_texts() -> Vec<String> {
-    let bodies = [
+    let bodies: [&str; 51] = [
         "\\0", "\\00", "\\000", "\\0001", "\\0011", "\\0012", "\\0277", "\\1", "\\12", "\\123", "\\1234", "\\255", "\\2550", "\\2555", "\\9", "\\99", "\\0a", "\\10a",
         "\\x41", "\\x4142", "\\x00", "\\xff", "\\xFF0", "\\u{48}", "\\u{0048}1", "\\u{e9}", "\\u{10FFFF}", "\\u{D800}", "\\z  \n  x", "\\z\n  7", "\\\nq", "a\\\r\nb",
+        // `\z` skips ASCII white space only
+        "\\z\u{3000}x", "\\z \u{a0}y", "\\z\n  \u{2003}z", "\\z\u{85}w", "\\z\u{2028}v",
         "\\a\\b\\f\\n\\r\\t\\v", "\\\\", "\\'", "\\\"", "tab\there", "\\0010\\0020", "1\\0002", "\\065\\0661", "%d\\037", "\\127\\128\\1291", "[[", "]]", "--", "\\u{7f}7",
     ];
     let numbers = [
